@@ -17,7 +17,31 @@ pub fn gen_port(t: &mut Tape) -> u16 {
 }
 
 pub fn gen_v4(t: &mut Tape) -> [u8; 4] {
-    match t.weighted(&[2, 2, 6]) {
+    match t.weighted(&[4, 4, 12, 3]) {
+        3 => {
+            // inside one of the IANA special-purpose blocks (this network, shared address space, loopback, link-local, DS-Lite
+            // 192.0.0.0/29, the TEST-NETs, 6to4 relay, benchmarking, multicast, reserved, broadcast), random host part
+            let (base, bits): ([u8; 4], u32) = *t.pick(&[
+                ([0, 0, 0, 0], 8),
+                ([10, 0, 0, 0], 8),
+                ([100, 64, 0, 0], 10),
+                ([127, 0, 0, 0], 8),
+                ([169, 254, 0, 0], 16),
+                ([172, 16, 0, 0], 12),
+                ([192, 0, 0, 0], 29),
+                ([192, 0, 0, 0], 24),
+                ([192, 0, 2, 0], 24),
+                ([192, 88, 99, 0], 24),
+                ([192, 168, 0, 0], 16),
+                ([198, 18, 0, 0], 15),
+                ([198, 51, 100, 0], 24),
+                ([203, 0, 113, 0], 24),
+                ([224, 0, 0, 0], 4),
+                ([240, 0, 0, 0], 4),
+            ]);
+            let host = if bits >= 32 { 0 } else { t.u32() >> bits };
+            (u32::from_be_bytes(base) | host).to_be_bytes()
+        }
         0 => *t.pick(&[[127, 0, 0, 1], [192, 168, 1, 101], [10, 0, 0, 1], [1, 2, 3, 4]]),
         1 => *t.pick(&[[0, 0, 0, 0], [255, 255, 255, 255], [0, 0, 0, 1], [1, 0, 0, 0], [255, 0, 255, 0], [100, 10, 9, 199]]),
         _ => t.u32().to_be_bytes(),
@@ -30,7 +54,7 @@ pub fn gen_v6(t: &mut Tape) -> [u16; 8] {
         5 => {
             // a well-known prefix (NAT64 and its local-use /48, 6to4, Teredo, documentation, link-local, multicast,
             // discard-only, IPv4-mapped) followed by random groups, some of them zero
-            let prefix: &[u16] = *t.pick(&[&[0x64, 0xff9b][..], &[0x64, 0xff9b, 1], &[0x2002], &[0x2001, 0], &[0x2001, 0xdb8], &[0xfe80], &[0xff02], &[0x100], &[0, 0, 0, 0, 0, 0xffff], &[0x64, 0xff9b, 0, 0, 0, 0]]);
+            let prefix: &[u16] = *t.pick(&[&[0x64, 0xff9b][..], &[0x64, 0xff9b, 1], &[0x2002], &[0x2001, 0], &[0x2001, 0xdb8], &[0xfe80], &[0xff02], &[0x100], &[0, 0, 0, 0, 0, 0xffff], &[0x64, 0xff9b, 0, 0, 0, 0], &[0x2001, 2, 0], &[0x2001, 0x10], &[0x2001, 0x20], &[0xfc00], &[0xfd00], &[0xfec0], &[0x2002, 0x0a00, 1], &[0x2002, 0xc0a8, 0x0101], &[0x2001, 0x0db8, 0, 0], &[0x3fff], &[0x5f00]]);
             for i in 0..8 {
                 g[i] = if i < prefix.len() { prefix[i] } else if t.chance(1, 3) { 0 } else { t.u16() };
             }
@@ -236,7 +260,41 @@ pub fn corrupt_addr_text(t: &mut Tape, valid: &str) -> Vec<u8> {
             _ => t.below(n.min(6) as u32) as usize,
         }
     };
-    match t.weighted(&[4, 3, 3, 2, 2]) {
+    match t.weighted(&[4, 3, 3, 2, 2, 2]) {
+        5 => {
+            // two edits that cancel in length: one numeral gains a leading zero or a digit (a five-digit group, a four-digit
+            // octet) while another numeral loses a digit - the text is as long as a valid one and made of the same characters
+            let is_sep = |b: u8| b == b':' || b == b'.';
+            let mut runs: Vec<(usize, usize)> = Vec::new();
+            let mut i = 0;
+            while i < n {
+                if is_sep(s[i]) {
+                    i += 1;
+                    continue;
+                }
+                let st = i;
+                while i < n && !is_sep(s[i]) {
+                    i += 1;
+                }
+                runs.push((st, i));
+            }
+            let long: Vec<usize> = (0..runs.len()).filter(|&r| runs[r].1 - runs[r].0 >= 2).collect();
+            if runs.len() >= 2 && !long.is_empty() {
+                let shrink = long[t.below(long.len() as u32) as usize];
+                // grow the longest other run (a 4-digit group becomes 5 digits, a 3-digit octet 4)
+                let grow = (0..runs.len()).filter(|&r| r != shrink).max_by_key(|&r| runs[r].1 - runs[r].0).unwrap();
+                let (hi, lo) = if runs[grow].0 > runs[shrink].0 { (grow, shrink) } else { (shrink, grow) };
+                for r in [hi, lo] {
+                    if r == shrink {
+                        s.remove(runs[r].1 - 1);
+                    } else {
+                        s.insert(runs[r].0, if t.coin() { b'0' } else { b'1' });
+                    }
+                }
+            } else {
+                s[n - 1] = b'g';
+            }
+        }
         0 => {
             let k = pos(t, n);
             s[k] = *t.pick(&[b'g', b'x', b'-', b'_', b'G', b'z']);
@@ -299,7 +357,25 @@ pub fn corrupt_word(t: &mut Tape, word: &str) -> Vec<u8> {
         let mut s = word.as_bytes().to_vec();
         let n = s.len();
         let extra = *t.pick(&[b'0', b'+', b'-', b'4', b'6', b'x', b'.', b'_', b'1', b'P', b'T', b'N']);
-        match t.below(5) {
+        match t.below(6) {
+            5 => {
+                // the same number of BYTES, fewer characters: k consecutive ASCII characters give way to one k-byte character
+                // (2, 3 or 4 bytes), anywhere in the word - also across the byte offset a parser may split the word at
+                let k = 2 + t.below(3) as usize;
+                if n >= k {
+                    let at = t.below((n - k + 1) as u32) as usize;
+                    let c = match k {
+                        2 => *t.pick(&['\u{e9}', '\u{b5}', '\u{7ff}']),
+                        3 => *t.pick(&['\u{20ac}', '\u{800}', '\u{ffff}']),
+                        _ => *t.pick(&['\u{1f600}', '\u{10000}']),
+                    };
+                    let mut buf = [0u8; 4];
+                    let enc = c.encode_utf8(&mut buf).as_bytes().to_vec();
+                    s.splice(at..at + k, enc);
+                } else {
+                    s.push(b'x');
+                }
+            }
             0 => s.insert(t.below(n as u32 + 1) as usize, extra),
             1 => s[t.below(n as u32) as usize] = extra,
             2 => {
@@ -1131,7 +1207,20 @@ pub fn gen_trailer(t: &mut Tape, utf8_only: bool) -> (Vec<u8>, &'static str) {
             // bytes that continue a TLV chain: well-formed TLVs with registered type codes and short values
             // (a parser that walks TLVs past the declared length would take them for part of the header)
             let n = t.usize_in(3, 40);
-            (tlv_run(t.u32() | 3, n), "tlv-run")
+            let mut s = tlv_run(t.u32() | 3, n);
+            // half of the time whole items only (the run then ends exactly where its last TLV ends)
+            if t.coin() {
+                let mut i = 0;
+                while i + 3 <= s.len() {
+                    let l = ((s[i + 1] as usize) << 8) | s[i + 2] as usize;
+                    if i + 3 + l > s.len() {
+                        break;
+                    }
+                    i += 3 + l;
+                }
+                s.truncate(i);
+            }
+            (s, "tlv-run")
         }
         10 => {
             // a very large trailer: the buffer is 64 KiB .. 128 KiB larger than the header
@@ -1232,7 +1321,7 @@ pub fn gen_addr_block(t: &mut Tape, fam: u8) -> Vec<u8> {
         _ => {
             let mut b = Vec::new();
             for _ in 0..2 {
-                let mut path = match t.weighted(&[2, 4, 2, 1, 1, 1]) {
+                let mut path = match t.weighted(&[2, 4, 2, 1, 1, 1, 2]) {
                     // abstract names: a leading NUL, then a short name padded with zeros / 107 non-zero bytes (the name fills
                     // sun_path: no terminator anywhere); a path that fills all 108 bytes without terminator
                     3 => {
@@ -1244,6 +1333,22 @@ pub fn gen_addr_block(t: &mut Tape, fam: u8) -> Vec<u8> {
                     4 => {
                         let mut p = vec![0u8];
                         p.extend(fill(t.u32() | 1, 107).into_iter().map(|b| if b == 0 { b'a' } else { b }));
+                        p
+                    }
+                    6 => {
+                        // address notation left in the path (HAProxy's unix@ / abns@ / ipv4@ prefixes, URL-ish schemes, '@name'),
+                        // a Linux autobind name (NUL + 5 hex digits)
+                        let mut p = match t.below(8) {
+                            0 => format!("unix@/run/app-{}.sock", t.below(10)).into_bytes(),
+                            1 => format!("abns@app-{}", t.below(10)).into_bytes(),
+                            2 => b"unix:/run/haproxy.sock".to_vec(),
+                            3 => b"@haproxy".to_vec(),
+                            4 => format!("\0{:05x}", t.below(1 << 20)).into_bytes(),
+                            5 => format!("\0{:05X}", t.below(1 << 20)).into_bytes(),
+                            6 => b"unix@".to_vec(),
+                            _ => b"abns@".to_vec(),
+                        };
+                        p.resize(108, 0);
                         p
                     }
                     5 => {
@@ -1478,7 +1583,13 @@ pub fn gen_v2_header(t: &mut Tape) -> V2Gen {
     let fam = t.below(4) as u8;
     let need = NEED[fam as usize];
     let addr = gen_addr_block(t, fam);
-    let (section, tlv_kind) = gen_tlv_section(t, 65535 - need);
+    let (mut section, mut tlv_kind) = gen_tlv_section(t, 65535 - need);
+    // one header in forty says the same thing twice: the bytes behind the address block are a copy of the address block
+    // (or of the whole fixed part and block)
+    if fam != 0 && t.chance(1, 40) {
+        section = addr.clone();
+        tlv_kind = "tlv-random";
+    }
     let mut payload = addr;
     payload.extend_from_slice(&section);
     // declared-length classes: exact fit is the only valid relation for a complete header; the
@@ -1555,7 +1666,18 @@ pub fn gen_v2_mutant(t: &mut Tape) -> (Vec<u8>, &'static str) {
                     // the 3-byte prefix of the last TLV / of every TLV not counted
                     7 => {
                         let n_tlvs = if fam == 0 { 0 } else { crate::oracle::tlv::tlv_ref(&h[(16 + need).min(h.len())..]).len() };
-                        if t.coin() { l.saturating_sub(3) } else { l.saturating_sub(3 * n_tlvs) }
+                        match t.below(3) {
+                            0 => l.saturating_sub(3),
+                            1 => l.saturating_sub(3 * n_tlvs),
+                            // ... or was filled in before the last TLV's value (or a part of it) had been appended
+                            _ => {
+                                let last = if fam == 0 { None } else { crate::oracle::tlv::tlv_ref(&h[(16 + need).min(h.len())..]).last().cloned() };
+                                match last {
+                                    Some(crate::oracle::tlv::Item::Ok { start, end, .. }) if end > start => l.saturating_sub(1 + t.below((end - start) as u32) as usize),
+                                    _ => l.saturating_sub(1),
+                                }
+                            }
+                        }
                     }
                     // exactly another family's block size (a dual-stack sender that labels the header with the listening
                     // socket's family but writes the peer's block)
